@@ -1,6 +1,53 @@
 import Tickit.Model.RBCopy
+import Tickit.Proof.RBCopy
 /-
   C13 — copying, moving and blitting buffer regions preserve content cell for cell.
+
+  `Variant.repaired` is the text of `copyrect` with fixes/C13_1 and fixes/C13_2 applied (what the driver runs
+  against the repaired tree); `Variant.asFound` / `Variant.captured` carry the counterexamples.
 -/
 namespace Tickit.Props.C13
+open Tickit Tickit.RB Tickit.RBCopy
+
+/-! ## "None of these operations disturbs the buffer's saved-state stack, cursor, clip or translation" -/
+
+/-- Copying keeps stack, depth, cursor, clip, translation, pen and size — for every buffer (well-formed or
+    not), every pair of rectangles, with or without a translation in force. -/
+theorem copy_keeps_aux_state (rb : RB) (dr sr : Rect) :
+    SameAux (copy Variant.repaired rb dr sr) rb :=
+  sameAux_copy _ rfl rb dr sr
+
+theorem move_keeps_aux_state (rb : RB) (dr sr : Rect) :
+    SameAux (move Variant.repaired rb dr sr) rb :=
+  sameAux_move _ rfl rb dr sr
+
+theorem blit_keeps_aux_state (same : Bool) (dst src : RB) :
+    SameAux (blit Variant.repaired same dst src) dst :=
+  sameAux_blit _ rfl same dst src
+
+/-- The same holds with only the first repair (the second one changes how text is copied, not the stack). -/
+theorem copy_keeps_aux_state_captured (rb : RB) (dr sr : Rect) :
+    SameAux (copy Variant.captured rb dr sr) rb :=
+  sameAux_copy _ rfl rb dr sr
+
+/-- A buffer with a skipped run in the middle of a line and one saved frame. -/
+def cexStack : RB := save (goto (skipAt (RB.new 3 5 0 0) 1 1 2) 1 1)
+
+/-- As found, the copy pops the caller's frame: the skip run `[1,3)` of line 1 is overwritten by its own copy
+    (one column to the left), its start cell is CONT afterwards, and `restore` runs without a `savepen`. -/
+theorem copy_pops_callers_frame_as_found :
+    (copy Variant.asFound cexStack ⟨0, 0, 2, 4⟩ ⟨0, 1, 2, 4⟩).depth = 0 ∧ cexStack.depth = 1 ∧
+    (copy Variant.asFound cexStack ⟨0, 0, 2, 4⟩ ⟨0, 1, 2, 4⟩).stack = [] := by
+  decide +kernel
+
+theorem copy_keeps_aux_state_counterexample_as_found :
+    ¬ (∀ (rb : RB) (dr sr : Rect), SameAux (copy Variant.asFound rb dr sr) rb) := by
+  intro h
+  have := (h cexStack ⟨0, 0, 2, 4⟩ ⟨0, 1, 2, 4⟩).depth
+  rw [copy_pops_callers_frame_as_found.1, copy_pops_callers_frame_as_found.2.1] at this
+  exact absurd this (by decide)
+
+/-- Non-vacuity: the repaired copy on the same input keeps the frame. -/
+example : (copy Variant.repaired cexStack ⟨0, 0, 2, 4⟩ ⟨0, 1, 2, 4⟩).depth = 1 := by decide +kernel
+
 end Tickit.Props.C13
